@@ -540,6 +540,101 @@ def _inside(d, loop):
     return False
 
 
+def _rc_atom_class(cmp_node, is_rc):
+    """Abstractly evaluate a comparison on a return code over {negative, zero, positive}.
+    Returns None when it is not a comparison of the return code with constants, 'none-test'
+    for `is None` / `is not None`, else the triple of truth values."""
+    if not isinstance(cmp_node, ast.Compare) or len(cmp_node.ops) != 1:
+        return None
+    l, r = cmp_node.left, cmp_node.comparators[0]
+    if is_rc(l) and not is_rc(r):
+        other, flip = r, False
+    elif is_rc(r) and not is_rc(l):
+        other, flip = l, True
+    else:
+        return None
+    try:
+        k = ast.literal_eval(other)
+    except Exception:
+        return None
+    op = cmp_node.ops[0]
+    if k is None:
+        return "none-test"
+    out = []
+    for v in (-9, 0, 1, 137):
+        a, b = (k, v) if flip else (v, k)
+        try:
+            if isinstance(op, ast.Eq): t = a == b
+            elif isinstance(op, ast.NotEq): t = a != b
+            elif isinstance(op, ast.Lt): t = a < b
+            elif isinstance(op, ast.LtE): t = a <= b
+            elif isinstance(op, ast.Gt): t = a > b
+            elif isinstance(op, ast.GtE): t = a >= b
+            elif isinstance(op, ast.In): t = a in b
+            elif isinstance(op, ast.NotIn): t = a not in b
+            elif isinstance(op, ast.Is): t = a is b
+            elif isinstance(op, ast.IsNot): t = a is not b
+            else: return None
+        except Exception:
+            return None
+        out.append(bool(t))
+    return tuple(out)
+
+
+def r124_rc_tests(ctx):
+    """Every comparison of an external program's return code distinguishes exactly zero from
+    non-zero (death by signal gives a negative code, a failure a positive one)."""
+    rid = "R-12.4"
+    n_atoms = 0
+    for rel in (LAMMPS, CP2K, GROMACS, ENGBASE):
+        for m, q, f in ctx.tree.all_funcs([rel]):
+            fl = None
+            for c in walk_local(f):
+                if not isinstance(c, ast.Compare):
+                    continue
+                if fl is None:
+                    fl = flow_of(f)
+
+                def is_rc(e, c=c):
+                    p = path_of(e) if isinstance(e, (ast.Name, ast.Attribute)) else None
+                    if p is None:
+                        if isinstance(e, ast.Call) and isinstance(e.func, ast.Attribute) and e.func.attr in ("poll", "wait"):
+                            return True
+                        return False
+                    if p.endswith(".returncode"):
+                        return True
+                    if "." in p:
+                        return False
+                    try:
+                        at = fl.cfg.node_of(c)
+                    except Exception:
+                        return False
+                    ds = [d for d, _ in fl.rd(p, at)]
+                    vals = [d.value for d in ds if getattr(d, "value", None) is not None and isinstance(d.value, ast.AST)]
+                    return any(
+                        (isinstance(v, ast.Attribute) and v.attr == "returncode")
+                        or (isinstance(v, ast.Call) and isinstance(v.func, ast.Attribute) and v.func.attr in ("poll", "wait"))
+                        for v in vals
+                    )
+
+                cls_ = _rc_atom_class(c, is_rc)
+                if cls_ is None:
+                    continue
+                n_atoms += 1
+                if cls_ == "none-test":
+                    ctx.ok(rid, c, f"{q}: `{short(c, 40)}` tests whether the program has finished", nontrivial=False)
+                    continue
+                neg, zero, pos1, pos2 = cls_
+                if neg == pos1 == pos2 and neg != zero:
+                    ctx.ok(rid, c, f"{q}: `{short(c, 40)}` separates exactly zero from every non-zero return code")
+                else:
+                    ctx.bad(rid, c, "a test on the external program's return code does not separate zero from every non-zero value "
+                            f"(truth on negative/zero/positive: {neg}/{zero}/{pos1}): a death by signal (negative code) or a failure exit is treated like success and a truncated path is returned instead of raising",
+                            construct="return-code test " + short(c, 50))
+    if n_atoms < 6:
+        raise AnalysisError(f"R-12.4: only {n_atoms} comparisons of a return code found (expected >= 6)")
+
+
 def r124(ctx):
     rid = "R-12.4"
     tree = ctx.tree
@@ -980,6 +1075,7 @@ def run(ctx):
         r126(ctx, m, cname, f, info)
         ctx.attempt(r129, ctx, m, cname, f)
     ctx.attempt(r124, ctx)
+    ctx.attempt(r124_rc_tests, ctx)
     ctx.attempt(r127, ctx)
     # frames queued by the on-the-fly readers own their arrays (box/coordinates of frame k are frame k's)
     from .c13 import readers
@@ -1005,6 +1101,10 @@ VARIANTS = [
     B("c12-turtle-constant-success", TURTLE, "        path.update_energies(ekin, vpot)\n        return success, status", "        path.update_energies(ekin, vpot)\n        return True, status", "R-12.1"),
     B("c12-ase-success-overwritten", ASE, "        path.update_energies(ekin, vpot)\n        return success, status", "        path.update_energies(ekin, vpot)\n        success = path.length > 1\n        return success, status", "R-12.1"),
     B("c12-gromacs-direct-append", GROMACS, "                status, success, stop, _ = self.add_to_path(\n                    path, phase_point, left, right\n                )", "                path.append(phase_point)\n                status, success, stop, _ = self.add_to_path(\n                    path, phase_point, left, right\n                )", "R-12.1"),
+    B("c12-cp2k-returncode-positive-only", CP2K, "            if return_code != 0 and not cp2k_was_terminated:", "            if return_code > 0 and not cp2k_was_terminated:", "R-12.4", why="seeded C12_c"),
+    B("c12-lammps-poll-loop-nonneg", LAMMPS, "            if exe.poll() is None or exe.returncode == 0:", "            if exe.poll() is None or exe.returncode <= 0:", "R-12.4"),
+    K("c12-keep-returncode-flipped", CP2K, "            if return_code != 0 and not cp2k_was_terminated:", "            if 0 != return_code and not cp2k_was_terminated:"),
+    K("c12-keep-returncode-notin", LAMMPS, "            if return_code != 0 and not lammps_was_terminated:", "            if return_code not in (0,) and not lammps_was_terminated:"),
     # ---- R-12.2
     B("c12-ase-index-off-by-one", ASE, '"config": (traj_file, step_nr),', '"config": (traj_file, step_nr + 1),', "R-12.2", control=True),
     B("c12-turtle-enumerate-index", TURTLE, '"config": (traj_file, step_nr),', '"config": (traj_file, i),', "R-12.2"),
